@@ -2,6 +2,7 @@
    and the executable form of C07 on the implementation's output (AxCut linear machine vs. the
    emitted code run on the ISA model Sem/A64Sem.v). *)
 From Coq Require Import List ZArith NArith String Bool.
+From SCC Require Import Sem.LabelText.
 From SCC Require Import Base.Sexp Lang.AxSyn Sem.AxSem Sem.A64Sem Model.Backend Model.A64 Model.A64Io Model.RunBase.
 Import ListNotations.
 Open Scope string_scope.
@@ -261,6 +262,9 @@ Definition wf_a64_case (i r : sexp) : verdict :=
   | L [Q _; p; lc; _], L [cs; _] =>
       match g_acodes cs with
       | Some cs =>
+          match bad_label (defined_labels cs ++ flat_map referenced cs) with
+          | Some l => VViol ("class=asm-ill-formed-a64 label is not an identifier: " ++ l)
+          | None =>
           match asm_wf cs with
           | Some why =>
               match first_dup (defined_labels cs), g_prog p with
@@ -277,6 +281,7 @@ Definition wf_a64_case (i r : sexp) : verdict :=
                    ++ tag (has (fun c => match c with STR _ SP _ | LDR _ SP _ => true | _ => false end) cs) "spills"
                    ++ tag (has (fun c => match c with BL _ => true | _ => false end) cs) "print"
                    ++ guard_tag p)
+          end
           end
       | None => VBad "rust output unreadable"
       end
